@@ -1,8 +1,25 @@
 reg("C08", "save / reload gives back an equivalent object",
-    parts=[dict(harness="c08_roundtrip", cases=dict(quick=2400, thorough=40000), timeout_case=10)],
-    rule="case i = (class number i mod N of the registry harness/common/c08_registry.hpp, one generated instance, file "
-         "addressing mode in {relative name, container+prefix, absolute path}); oracles: dumpToNF ok, createFromNF non-null, "
-         "defining getters equal to the 15 digits of the format (TEST stays TEST), behavioural queries equal, "
-         "save(load(save(o))) == save(o) byte for byte, serialize(ostream)/deserialize(istream) same object and text; "
-         "distinct = distinct (class, discrete generator choices) signatures with at least one oracle evaluated",
-    require=dict(distinct=100))
+    parts=[dict(harness="c08_roundtrip", cases=dict(quick=2640, thorough=39600), timeout_case=30)],
+    rule="case i = (class number i mod 33 of harness/common/c08_registry.hpp: Db, DbGrid, Model, NeighUnique, NeighMoving, "
+         "NeighBench, NeighCell, NeighImage, Vario, Polygons, PolyLine2D, Faults, Table, AnamHermite, AnamEmpirical, "
+         "AnamDiscreteDD, AnamDiscreteIR, DbLine, DbGraphO, MeshETurbo, MeshEStandard, DbMeshTurbo, DbMeshStandard, Rule, "
+         "RuleShift, RuleShadow, FracEnviron, FracFamily, FracFault, PolyElem + the exchange formats GridZycor, GridIfpEn, "
+         "GridBmp; one generated instance; file addressing mode in {relative name, container + prefix, absolute path}). "
+         "Oracles: dumpToNF ok, createFromNF non-null, defining getters equal to the 15 digits of the format (TEST stays TEST), "
+         "behavioural queries equal, save(load(save(o))) == save(o) byte for byte, serialize(ostream) == file body, "
+         "deserialize(istream) == createFromNF and re-serialises to the same text; exchange formats: geometry and values back "
+         "within the precision the format writes (6 significant digits; Bmp: image size and order of grey levels). Each case "
+         "runs in a forked child: a crash is a keyed failure C08:<class>:crash:<kind>:<first /repo function>. "
+         "NOT instantiated: AnamUser (its _serialize refuses by design), MeshSpherical, DbMeshTurbo with a mask, Model with "
+         "Markov / tapering / anamorphosis attachments, Vario with dates or faults, GENERAL1-3 variogram modes (the library "
+         "exits while computing them), fitted AnamDiscreteDD (needs a MAF decomposition on a Db; its stored fields are set "
+         "through reset()), RuleShift / RuleShadow / FracFamily / FracFault have no createFromNF (loaded by tag check + public "
+         "deserialize). distinct = distinct (class, discrete generator choices) signatures with at least one oracle evaluated",
+    require=dict(distinct=300, oracles=dict(quick={"getters": 8000, "behaviour": 2500, "load": 900, "idempotent": 700, "stream": 3000,
+                                                   "exchange": 400},
+                                            thorough={"getters": 120000, "behaviour": 37000, "load": 13000, "idempotent": 10000,
+                                                      "stream": 45000, "exchange": 6000})),
+    assumptions=["equivalence is judged through public getters, the queries listed in the registry and the text of a second "
+                 "save: a private field that is neither written, nor visible in a query, nor affects a second save is outside the claim",
+                 "numerical agreement = 1e-14 relative (15 significant digits); behavioural queries get a documented amplification "
+                 "factor (see the comparators)"])
